@@ -23,8 +23,10 @@ numeric = Union[int, float]
 
 TACTICS_ORDER = [1, 2, 3, 4, 5]  # noqa: WPS407
 
-# relative tolerance when comparing an LP optimum against a bound (absorbs solver round-off)
-CONTAINMENT_TOLERANCE = 1e-6
+# relative tolerance when comparing an LP optimum against a bound (absorbs solver round-off); the
+# containment test relaxes the tested constraint by 1, so the tolerance must stay well below that
+CONTAINMENT_TOLERANCE = 1e-7
+CONTAINMENT_TOLERANCE_CAP = 0.5
 
 
 class PolyhedralTerm(Term):
@@ -1134,7 +1136,8 @@ class PolyhedralTermList(TermList):  # noqa: WPS338
                 is_refinement = False
                 break
             else:
-                if -res["fun"] <= b_temp + CONTAINMENT_TOLERANCE * (1 + abs(b_temp)):  # noqa: WPS309
+                tolerance = min(CONTAINMENT_TOLERANCE * (1 + abs(b_temp)), CONTAINMENT_TOLERANCE_CAP)
+                if -res["fun"] <= b_temp + tolerance:  # noqa: WPS309
                     logging.debug("Redundant constraint")
                 else:
                     is_refinement = False
